@@ -561,6 +561,13 @@ func (env *Env) elabCall(e *SCall) Val {
 				}
 				v.GoT = t
 				return v
+			case "zero":
+				// zero(e): the zero value of e's type (e.g. the dropped key of a generic helper)
+				a := args()
+				if len(a) != 1 {
+					elabFail("zero(e)")
+				}
+				return Val{T: zeroOf(a[0].S), S: a[0].S, GoT: a[0].GoT}
 			case "bstr":
 				// bstr(b): the string spelled by the bytes of the []byte value b
 				a := args()
